@@ -948,6 +948,11 @@ class Interp:
                 return []
             if nm in ("set", "dict") and not args:
                 return set() if nm == "set" else {}
+            if nm == "dict" and len(args) == 1 and isinstance(args[0], dict) and not kwargs and "dict" not in env:
+                d_ = DDict(args[0]) if isinstance(args[0], DDict) else dict(args[0])      # shallow: the values stay shared
+                if isinstance(args[0], DDict):
+                    d_.factory = args[0].factory
+                return d_
             if nm == "set" and len(args) == 1 and isinstance(args[0], list):
                 return set(self._hashable(x) for x in args[0])
             if nm == "isinstance" and len(c.args) == 2:
